@@ -8,6 +8,39 @@ pub(super) fn value_as_f64(value: &Value) -> Option<f64> {
     }
 }
 
+/// Exact order of an integer and a float (`None` when the float is NaN). Going through `f64`
+/// would round integers beyond 2^53 and make distinct numbers compare equal.
+pub(super) fn compare_int_float(int_value: i64, float_value: f64) -> Option<std::cmp::Ordering> {
+    use std::cmp::Ordering;
+    if float_value.is_nan() {
+        return None;
+    }
+    // 2^63 and -2^63 are exactly representable; every i64 lies in [-2^63, 2^63).
+    if float_value >= 9_223_372_036_854_775_808.0 {
+        return Some(Ordering::Less);
+    }
+    if float_value < -9_223_372_036_854_775_808.0 {
+        return Some(Ordering::Greater);
+    }
+    let truncated = float_value.trunc();
+    // Exact: `truncated` is integral and within the i64 range.
+    match int_value.cmp(&(truncated as i64)) {
+        Ordering::Equal => 0.0f64.partial_cmp(&(float_value - truncated)),
+        other => Some(other),
+    }
+}
+
+/// Exact order of two numbers (`None` when one of them is NaN or not a number).
+pub(super) fn compare_numbers(left: &Value, right: &Value) -> Option<std::cmp::Ordering> {
+    match (left, right) {
+        (Value::Int(l), Value::Int(r)) => Some(l.cmp(r)),
+        (Value::Float(l), Value::Float(r)) => l.partial_cmp(r),
+        (Value::Int(l), Value::Float(r)) => compare_int_float(*l, *r),
+        (Value::Float(l), Value::Int(r)) => compare_int_float(*r, *l).map(|ord| ord.reverse()),
+        _ => None,
+    }
+}
+
 pub(super) fn value_as_i64(value: &Value) -> Option<i64> {
     match value {
         Value::Int(i) => Some(*i),
